@@ -83,6 +83,23 @@ def _run_case(ctx, case):
     f = obs.build(spec)
     nv = operand(new)
     nontrivial = bool(F or N)
+    pre = case.get("prelude")
+    if pre:
+        # what the application did just before, on another value: a splice that was refused, one
+        # that a Ctrl-C cut short, or one that inserted - as plain text - the very terminal string
+        # of the value spliced now.  None of it may show in the splice judged below.
+        other = obs.build([["pq", {"bg": 44}], ["rs", {}], ["tuv", {"underline": True}]])
+        try:
+            if pre[0] == "refused":
+                other.splice(nv, 5.5)
+            elif pre[0] == "interrupted":
+                if obs.interrupted_call(lambda: other.splice(nv, 3, 5), pre[1]):
+                    ctx.count("splices_interrupted_at_a_statement")
+            elif pre[0] == "terminal-string-as-text" and not isinstance(nv, str):
+                other.splice(str(nv), 1)
+                other.append(str(nv))
+        except Exception:  # noqa
+            pass
     if case.get("op") == "append":
         want = F + N
         mech = "C09:append" if N else "C09:empty-replacement"
@@ -170,5 +187,12 @@ def run(ctx):
         tw = obs.twin(spec, rng)
         if tw is not None and rng.random() < .5:
             case["twin_first"] = tw
+        r_ = rng.random()
+        if r_ < .04:
+            case["prelude"] = ["refused"]
+        elif r_ < .10:
+            case["prelude"] = ["interrupted", rng.randint(1, 40)]
+        elif r_ < .16:
+            case["prelude"] = ["terminal-string-as-text"]
         run_case(ctx, case)
         ctx.count("random_splices")
